@@ -183,6 +183,12 @@ def gen_poolmix(seed, tier, o):
                 op["timeouts"] = to
             if r.random() < o.get("p_trace", 0.0):
                 op["trace"] = True
+            if proto in ("h2", "mix") and op.get("body"):
+                # uploads stay inside the stream and connection windows: waiting for
+                # flow-control credit on a shared connection is C13's business (KF-C13-1)
+                lim = 1000
+                if op["body"]["len"] > lim:
+                    op["body"] = {"len": r.randint(0, lim)}
             if small:
                 # one byte per read: keep the run short
                 if op["resp"].get("body_len", 0) > 1500:
